@@ -112,3 +112,24 @@ Lemma rlib_deps_current ops p :
   let s := snd (rrun r_init ops) in
   snd (rstep s (RDiscover p)) = match alookup p (r_files s) with Some f => Some (f_deps f) | None => None end.
 Proof. apply rstep_current. apply rrun_inv. apply r_init_inv. Qed.
+
+(* ---- crate names of library files ---- *)
+Lemma lib_prefix_once n : crate_of_libname (lib_prefix ++ n) = Some n.
+Proof. reflexivity. Qed.
+
+Lemma name_eqb_refl n : name_eqb n n = true.
+Proof. induction n as [|x n IH]; simpl; [reflexivity|]. rewrite N.eqb_refl. exact IH. Qed.
+
+(* the library of every crate the externs' metadata names is packaged, whatever the crate is called -
+   in particular when its own name starts with "lib" *)
+Lemma named_lib_is_packaged dep_names n :
+  In n dep_names -> lib_packaged dep_names (lib_prefix ++ n) = true.
+Proof.
+  intros I. unfold lib_packaged. rewrite lib_prefix_once. apply existsb_exists.
+  exists n. split; [exact I | apply name_eqb_refl].
+Qed.
+
+Lemma trim_all_refuted :
+  trim_all_lib 10 (lib_prefix ++ [108; 105; 98; 99]) = [99]           (* "liblibc" -> "c" *)
+  /\ crate_of_libname (lib_prefix ++ [108; 105; 98; 99]) = Some [108; 105; 98; 99].   (* -> "libc" *)
+Proof. split; reflexivity. Qed.
